@@ -6,6 +6,7 @@ package props
 
 import (
 	"testing"
+	"verif/harness/wire"
 
 	kcp "github.com/xtaci/kcp-go/v5"
 	"pgregory.net/rapid"
@@ -129,4 +130,76 @@ func TestC09Entropy(t *testing.T) {
 	}
 	rec.Class("nonce_draws", int64(3*n))
 	rec.Sample(map[string]any{"sources": []string{"NewEntropyAES", "NewEntropyChacha8", "NewEntropy"}, "draws_each": n, "bytes_per_draw": 16})
+}
+
+// TestC09EncoderIDs: the FEC encoder alone, from any position including the
+// last groups before the wrap value, with parity blocks skipped at drawn
+// groups: every emitted id is below the wrap value, follows its predecessor by
+// +1 (or +p+1 after a skipped parity block) modulo the wrap value, its type
+// matches its position in the d+p cycle, and OOB packets consume no id.
+func TestC09EncoderIDs(t *testing.T) {
+	rec := hx.NewRecorder(t)
+	rapid.Check(t, func(rt *rapid.T) {
+		d, p := drawRatio(rt, "r.", false)
+		n := d + p
+		paws := pawsOf(n)
+		groupsBefore := rapid.IntRange(0, 4).Draw(rt, "groupsBeforeWrap")
+		start := paws - uint32(n*groupsBefore)
+		if rapid.IntRange(0, 3).Draw(rt, "elsewhere") == 0 {
+			start = rapid.Uint32Range(0, paws/uint32(n)-1).Draw(rt, "group") * uint32(n)
+		}
+		st := newFECStream(d, p, start%paws, 0x909)
+		groups := rapid.IntRange(1, 8).Draw(rt, "groups")
+		obs := newWireObserver(mustCrypto("null"), [2]int{d, p}, 0x909, 0, true)
+		skipped, wrapped := 0, false
+		var last uint32
+		have := false
+		for g := 0; g < groups; g++ {
+			skip := rapid.IntRange(0, 2).Draw(rt, "skipParity") == 0
+			if skip {
+				skipped++
+			}
+			if rapid.IntRange(0, 3).Draw(rt, "oob") == 0 {
+				b := make([]byte, 8+4+3)
+				b[8], b[9] = 0x09, 0x09 // the session writes its conv behind the FEC header
+				st.enc.EncodeOOB(b)
+				if err := obs.Observe(b); err != nil {
+					rt.Fatalf("C09 (encoder, d=%d p=%d start=%d): OOB packet: %v", d, p, start, err)
+				}
+			}
+			for _, pk := range st.group([]int{30, 24, 400}, skip) {
+				if have && pk.Seq < last {
+					wrapped = true
+				}
+				last, have = pk.Seq, true
+				// only the FEC framing is checked here: the stream content is not the position-dependent test stream
+				f, err := wire.ParseFrame(pk.Raw, true)
+				if err == nil {
+					err = obs.fecID(&f)
+				}
+				if err != nil {
+					rt.Fatalf("C09 (encoder, d=%d p=%d start=%d, group %d, parity skipped in %d groups so far): %v", d, p, start, g, skipped, err)
+				}
+			}
+		}
+		cl := []string{"encoder_cases"}
+		if wrapped {
+			cl = append(cl, "wrapped")
+		}
+		if skipped > 0 {
+			cl = append(cl, "parity_skipped")
+		}
+		rec.Case(hx.Hash64(d, p, start, groups, skipped), wrapped && skipped > 0, cl...)
+		if rec.WantSample() {
+			rec.Sample(map[string]any{"ratio": []int{d, p}, "start": start, "groups": groups, "groups_with_skipped_parity": skipped})
+		}
+	})
+}
+
+func mustCrypto(name string) *wire.Crypto {
+	c, err := wire.NewCrypto(name, make([]byte, wire.KeyLen(name)))
+	if err != nil {
+		panic(err)
+	}
+	return c
 }
